@@ -11,7 +11,8 @@ HERE = os.path.dirname(os.path.dirname(os.path.abspath(__file__)))
 CHECKS = {
     'C01': ('E1 scripted transport + history invariant',
             'Hypothesis-generated call histories over a scripted transport; history invariant '
-            '(handed-back + pending == received) plus real-fd replay',
+            '(handed-back + pending == received) plus real-fd replay; injected-fault tier (a read raising a foreign '
+            'exception inside a call, then drained: everything handed back is the stream, once)',
             'Generated search (Hypothesis, seeded) over streams x read splittings x call histories x window '
             'sizes x bytes/utf-8, decided by a two-directional conservation invariant after every call; '
             'shrunk counterexamples are replayable. Exploration, not proof: absence is not established.',
@@ -148,7 +149,8 @@ CHECKS = {
     'C11': ('E3 recording peers + recording log objects',
             'the C08 history runner with recording log files in all 8 combinations; transcript oracle (read log, send '
             'log, merged log in operation order, flush after every write, string type per mode); interact() sessions '
-            'with logs via the C15 harness',
+            'with logs via the C15 harness; generated requests that cannot be delivered (unencodable text, closed pipe) '
+            'must be logged all the same',
             'Generated interleavings of reads and sends on all four transports with every combination of the three log '
             'attributes; the logs must equal the model transcript exactly, be flushed after each write and carry the '
             'string type of the mode.',
